@@ -29,6 +29,7 @@ func runC07(c *Ctx, r *Report) {
 	c07SubkeyAlignment(c, r)
 	c07ParseErrors(c, r)
 	c07IncrementField(c, r, "C07-c/increment-field")
+	c07SampleKeepsCells(c, r, "C07-a/sample-keeps-cells")
 	c07Numerical(c, r)
 	c07RowInit(c, r)
 	c07Bounds(c, r)
